@@ -71,10 +71,10 @@ def inv_diameter(f, D):
     return out
 
 
-def mk_Density(f, n):
+def mk_Density(f, n, all_set=False, pos=False):
     """An arbitrary Density satisfying Inv_rho (true by construction, for both factories)."""
     types = list(LABELS[:n])
-    dens = mk_VT(f, 'density', n, mk_val=lambda a: f.real('rho_' + a))
+    dens = mk_VT(f, 'density', n, mk_val=lambda a: f.real('rho_' + a, pos=pos), all_set=all_set)
     f.setattr(dens, 'types', types)
     vals = f.getattr(dens, 'values')
     NS = f.enum(SP, 'NonSpatial')
@@ -97,10 +97,10 @@ def mk_Density(f, n):
     return f.obj(DEN, types=types, density=dens, total=tot, pair=pair, site=site)
 
 
-def mk_Diameter(f, n):
+def mk_Diameter(f, n, all_set=False, pos=False):
     """An arbitrary Diameter satisfying Inv_d (true by construction)."""
     types = list(LABELS[:n])
-    dia = mk_VT(f, 'diameter', n, mk_val=lambda a: f.real('d_' + a))
+    dia = mk_VT(f, 'diameter', n, mk_val=lambda a: f.real('d_' + a, pos=pos), all_set=all_set)
     dvals = f.getattr(dia, 'values')
     pi = f.pi()
 
